@@ -53,6 +53,7 @@ type Result struct {
 	ScopeCases          int            `json:"scope_cases"`
 	ScopeGenerated      int            `json:"scope_generated"`
 	ScopeDuplicates     int            `json:"scope_duplicates_skipped"`
+	ScopeNullableRep    int            `json:"scope_nullable_body_included"`
 	ScopeSkippedNull    int            `json:"scope_nullable_body_skipped"`
 	ScopePerStratum     map[string]int `json:"scope_cases_per_stratum"`
 	NullableFamilyCases int            `json:"nullable_family_cases"`
@@ -123,8 +124,8 @@ func (r *runner) scratch() (string, error) {
 func (r *runner) runCase(c Case) (out outcome) {
 	mk := func(kind, msg, wit string) Fail {
 		fam, why := c.G.Classify()
-		if kind == "timeout" && c.Heavy {
-			fam, why = "nullable-body", "a repetition whose body can match the empty string"
+		if kind == "timeout" && c.NullableRep {
+			fam, why = "nullable-body", "a repetition whose body can match the empty string (gocc before 73a37d1 did not terminate on these)"
 		}
 		return Fail{ID: c.ID, Grammar: c.Text, Kind: kind, Family: fam, FamilyReason: why, Msg: msg, WitnessInputHex: wit, Stratum: c.Stratum}
 	}
@@ -143,11 +144,7 @@ func (r *runner) runCase(c Case) (out outcome) {
 	}
 	bnf := c.Text
 	if r.expand {
-		ex := c.G.Expanded()
-		if predictedHang(ex) {
-			return outcome{} // expansion made a repetition body nullable: gocc would hang
-		}
-		bnf = ex.Text()
+		bnf = c.G.Expanded().Text()
 	}
 	if err := os.WriteFile(filepath.Join(dir, "g.bnf"), []byte(bnf), 0o644); err != nil {
 		return outcome{fails: []Fail{mk("internal", err.Error(), "")}}
@@ -160,9 +157,9 @@ func (r *runner) runCase(c Case) (out outcome) {
 		if timedOut {
 			// A wall-clock timeout on an overloaded machine proves nothing: if the
 			// child got less than half of the time as CPU time it was starved, not
-			// spinning. Cases on which gocc is not predicted to hang get up to two
-			// more attempts with a four times longer limit.
-			if !c.Heavy && attempt < 3 && cpu < timeout/2 {
+			// spinning. Such a run gets up to two more attempts with a four times
+			// longer limit.
+			if attempt < 3 && cpu < timeout/2 {
 				atomic.AddInt32(&r.retries, 1)
 				os.RemoveAll(filepath.Join(dir, "lexer"))
 				os.RemoveAll(filepath.Join(dir, "token"))
@@ -261,10 +258,11 @@ func cmdSweep(args []string) int {
 	only := fs.String("only", "", "re-run only the case with this id")
 	workers := fs.Int("j", runtime.NumCPU(), "number of concurrent gocc runs")
 	timeout := fs.Duration("timeout", 10*time.Second, "gocc timeout per case")
-	maxTimeouts := fs.Int("max-timeouts", 150, "abort the sweep after this many timeouts outside the nullable-body family")
+	maxTimeouts := fs.Int("max-timeouts", 150, "abort the sweep after this many timeouts")
 	tmp := fs.String("tmp", "", "scratch directory (default $TMPDIR, else /tmp)")
 	expand := fs.Bool("expand-regdefs", false, "self-check of the reference: run gocc on the macro-expanded grammar (no regular definitions left) and compare with the reference of the ORIGINAL grammar; expected: no failures")
 	cpuprofile := fs.String("cpuprofile", "", "write a CPU profile of lexref itself to this file")
+	skipNullable := fs.Bool("skip-nullable-bodies", false, "leave out the grammars in which a repetition body can match the empty string (gocc before 73a37d1 hangs on them); the nullable family is always run")
 	fs.Parse(args)
 	if *cpuprofile != "" {
 		f, err := os.Create(*cpuprofile)
@@ -292,7 +290,7 @@ func cmdSweep(args []string) int {
 		return 2
 	}
 	t0 := time.Now()
-	all, stats, err := Enumerate(*scope)
+	all, stats, err := Enumerate(*scope, *skipNullable)
 	if err != nil {
 		fmt.Fprintln(os.Stderr, err)
 		return 2
@@ -300,7 +298,7 @@ func cmdSweep(args []string) int {
 	res := &Result{Scope: *scope, Seed: *seed, Shard: fmt.Sprintf("%d/%d", si, sn), Gocc: goccAbs,
 		FailsByKind: map[string]int{}, FailsByFamily: map[string]int{},
 		ScopeCases: len(all), ScopeGenerated: stats.Generated, ScopeDuplicates: stats.Duplicates,
-		ScopeSkippedNull: stats.SkippedNullable, ScopePerStratum: stats.PerStratum,
+		ScopeNullableRep: stats.NullableRep, ScopeSkippedNull: stats.SkippedNullable, ScopePerStratum: stats.PerStratum,
 		Fails: []Fail{}, Samples: []Sample{}}
 
 	var todo []Case
@@ -331,18 +329,12 @@ func cmdSweep(args []string) int {
 	rng := rand.New(rand.NewSource(*seed))
 	rng.Shuffle(len(todo), func(i, j int) { todo[i], todo[j] = todo[j], todo[i] })
 
-	var light, heavy []Case
 	for _, c := range todo {
 		if c.G.HasRegdefs() {
 			res.WithRegdefs++
 		}
 		if c.Family {
 			res.NullableFamilyCases++
-		}
-		if c.Heavy {
-			heavy = append(heavy, c)
-		} else {
-			light = append(light, c)
 		}
 	}
 	res.Cases = len(todo)
@@ -372,7 +364,7 @@ func cmdSweep(args []string) int {
 						continue
 					}
 					o := r.runCase(c)
-					if o.timedOut && !c.Heavy {
+					if o.timedOut {
 						if int(atomic.AddInt32(&unexpectedTimeouts, 1)) >= *maxTimeouts {
 							aborted.Store(true)
 						}
@@ -394,10 +386,6 @@ func cmdSweep(args []string) int {
 	if *workers < 1 {
 		*workers = 1
 	}
-	heavyWorkers := *workers / 2
-	if heavyWorkers < 1 {
-		heavyWorkers = 1
-	}
 	stopProgress := make(chan struct{})
 	go func() {
 		tick := time.NewTicker(60 * time.Second)
@@ -412,15 +400,12 @@ func cmdSweep(args []string) int {
 		}
 	}()
 	var wg sync.WaitGroup
-	// Cases on which gocc is predicted to hang run in their own, smaller pool
-	// (each burns the full timeout and a few hundred MB), concurrently with the rest.
-	pool(heavy, heavyWorkers, &wg)
-	pool(light, *workers, &wg)
+	pool(todo, *workers, &wg)
 	wg.Wait()
 	close(stopProgress)
 
 	if aborted.Load() {
-		res.Aborted = fmt.Sprintf("more than %d timeouts outside the nullable-body family; remaining cases not run", *maxTimeouts)
+		res.Aborted = fmt.Sprintf("%d timeouts reached; remaining cases not run", *maxTimeouts)
 	}
 	res.ExpandRegdefs = *expand
 	res.NotRun = int(notRun)
@@ -546,7 +531,7 @@ func cmdCheck(args []string) int {
 	}
 	goccAbs, _ := filepath.Abs(*gocc)
 	text := string(src)
-	c := Case{ID: CaseID(text), Text: text, G: g, Stratum: "file", Heavy: predictedHang(g)}
+	c := Case{ID: CaseID(text), Text: text, G: g, Stratum: "file", NullableRep: nullableRepBody(g)}
 	r := &runner{gocc: goccAbs, timeout: *timeout}
 	o := r.runCase(c)
 	out := struct {
@@ -570,28 +555,29 @@ func cmdList(args []string) int {
 	fs := flag.NewFlagSet("list", flag.ExitOnError)
 	scope := fs.String("scope", "quick", "quick or thorough")
 	verbose := fs.Bool("v", false, "print every case")
+	skipNullable := fs.Bool("skip-nullable-bodies", false, "leave out the grammars in which a repetition body can match the empty string")
 	fs.Parse(args)
-	all, stats, err := Enumerate(*scope)
+	all, stats, err := Enumerate(*scope, *skipNullable)
 	if err != nil {
 		fmt.Fprintln(os.Stderr, err)
 		return 2
 	}
 	if *verbose {
 		for _, c := range all {
-			fmt.Printf("## %s %s heavy=%v\n%s", c.ID, c.Stratum, c.Heavy, c.Text)
+			fmt.Printf("## %s %s nullable-rep-body=%v\n%s", c.ID, c.Stratum, c.NullableRep, c.Text)
 		}
 	}
-	withReg, heavy := 0, 0
+	withReg, nrep := 0, 0
 	for _, c := range all {
 		if c.G.HasRegdefs() {
 			withReg++
 		}
-		if c.Heavy {
-			heavy++
+		if c.NullableRep {
+			nrep++
 		}
 	}
-	fmt.Printf("scope %s: %d cases (%d with regdefs, %d predicted gocc hangs in the nullable family); generated %d, duplicates %d, nullable-body skipped %d\n",
-		*scope, len(all), withReg, heavy, stats.Generated, stats.Duplicates, stats.SkippedNullable)
+	fmt.Printf("scope %s: %d cases (%d with regdefs, %d with a nullable repetition body, family included); generated %d, duplicates %d, nullable-body included %d, skipped %d\n",
+		*scope, len(all), withReg, nrep, stats.Generated, stats.Duplicates, stats.NullableRep, stats.SkippedNullable)
 	var names []string
 	for n := range stats.PerStratum {
 		names = append(names, n)
